@@ -213,6 +213,7 @@ var All = map[string]func(*Ctx){
 		c.moduleCopied("C20.instance")
 		c.ctxDataReadOnly("C20.ctx-data")
 		c.perInstanceWiring("C20.per-instance")
+		c.slotPairing("C20.slot-pairing")
 	}),
 }
 
